@@ -49,13 +49,22 @@ func zzPageBytes(m *Memory, addr uint64, n int) []byte {
 // a valid or an invalid blob: unreadable -> panic, machine set unchanged; invalid blob -> HUH,
 // unchanged; otherwise register 7 is the smallest unused index, the new machine holds exactly
 // the blob, the given counter and a memory in which no page is accessible, and the other
-// machines are untouched. Then pages() on the new machine must work (no Go panic).
+// machines are untouched (index sets with gaps left by expunge included). Then pages() on the new machine must work (no Go panic).
 //zz:workers=8
 func ZZ_C33_machine() {
 	m := IntegratedPVMMap{}
-	existing := zzvt.Range("existingMachines", 0, 2) // indices 0.. are taken, or 0 and 2
-	for i := 0; i < existing; i++ {
-		m[uint64(i)] = zzInner(zzTrapBlob, 0)
+	// taken indices: none, {0}, {0,1}, {1} (0 was expunged), {0,2} (1 was expunged)
+	layout := [][]uint64{{}, {0}, {0, 1}, {1}, {0, 2}}[zzvt.Range("existingMachines", 0, 4)]
+	for _, i := range layout {
+		m[i] = zzInner(zzTrapBlob, 0)
+	}
+	existing := len(layout)
+	free := uint64(0) // the smallest index not taken
+	for {
+		if _, taken := m[free]; !taken {
+			break
+		}
+		free++
 	}
 	in, regs, gas := zzRefineInput(m)
 	valid := zzvt.Bool("validBlob")
@@ -84,9 +93,9 @@ func ZZ_C33_machine() {
 		zzvt.Assert(len(nm) == existing, "HUH-leaves-machines-unchanged")
 	default:
 		zzvt.Assert(out.ExitReason == ExitContinue, "machine-continues")
-		zzvt.Assert(regs[7] == uint64(existing), "smallest-unused-index")
+		zzvt.Assert(regs[7] == free, "smallest-unused-index")
 		zzvt.Assert(len(nm) == existing+1, "one-machine-added")
-		nw, ok := nm[uint64(existing)]
+		nw, ok := nm[free]
 		zzvt.Assert(ok, "new-machine-stored")
 		if !ok {
 			return
@@ -98,7 +107,7 @@ func ZZ_C33_machine() {
 		}
 		// the new machine is usable: make page 20 writable
 		in2, regs2, _ := zzRefineInput(nm)
-		regs2[7], regs2[8], regs2[9], regs2[10] = uint64(existing), 20, 1, 2
+		regs2[7], regs2[8], regs2[9], regs2[10] = free, 20, 1, 2
 		var out2 OmegaOutput
 		zzvt.Assert(!zzvt.Try(func() { out2 = pages(in2) }), "pages-on-new-machine-no-go-panic")
 		zzvt.Assert(out2.ExitReason == ExitContinue && regs2[7] == OK, "pages-on-new-machine-ok")
